@@ -701,8 +701,11 @@ class _SynthReader(pb.readers.BaseReader):
 
 def leap_case(case, res):
     """A stream that runs through the leap second at the end of 2016: positions are counted in elapsed time."""
+    # (also rates that are not a whole number of Hz, on an ordinary day, over many seconds)
     for rate, t0, n in ((1 * u.kHz, "2016-12-31T23:59:30", 90000), (1 * u.MHz, "2016-12-31T23:59:59.5", 3000000),
-                        (2 * u.Hz, "2016-12-31T12:00:00", 100000)):
+                        (2 * u.Hz, "2016-12-31T12:00:00", 100000), (2.5 * u.Hz, "2021-03-04T05:06:07", 5000),
+                        (44.1 * u.Hz, "2021-03-04T05:06:07", 50000), (7629.39453125 * u.Hz, "2021-03-04T05:06:07", 300000),
+                        ((1e6 / 3) * u.Hz, "2021-03-04T05:06:07", 4000000)):
         r = _SynthReader(n, rate, Time(t0, format="isot", scale="utc", precision=9))
         srv = rate.to_value(u.Hz)
         for k in sorted({0, 1, n // 3, int(29.999 * srv), int(30 * srv), int(30.5 * srv) + 1, int(31.001 * srv), n // 2, n - 1, n} & set(range(n + 1))
@@ -747,7 +750,34 @@ def leap_case(case, res):
             res.hits["stream running through a leap second"] += 1
 
 
+def mask2d_check(case, res):
+    """A (polarisation, channel) sideband mask that differs along both axes: exactly the flagged streams are conjugated."""
+    src = [DATA + "fake.%d.raw" % i for i in range(4)]
+    with baseband.open(src, "rs", format="guppi", squeeze=False) as fh:
+        fh.seek(8180)
+        raw = fh.read(24)                      # (time, pol, chan), straddling the first file boundary
+    for mi, mask in enumerate((np.array([[False, True, False, False], [True, False, False, True]]),
+                               np.array([[True, True, True, False], [False, False, False, False]]),
+                               np.array([[False, False, False, False], [False, False, True, False]]))):
+        for dask_ in (False, True):
+            res.transitions += 1
+            try:
+                r = pb.readers.BasebandReader(src, format="guppi", squeeze=False, lower_sideband=mask)
+                z = r.read(8180, 24, use_dask=dask_)
+                got = np.asarray(z.data.compute() if dask_ else z.data)
+            except Exception as e:
+                res.violation("mask 2-d|raised", f"{type(e).__name__}: {e}", case, {"mask": mi})
+                continue
+            want = np.where(mask[None], raw.conj(), raw)
+            if got.shape != want.shape or not np.array_equal(got, want):
+                res.violation("mask 2-d|wrong streams conjugated", f"mask #{mi} {mask.astype(int).tolist()} (dask={dask_}): the streams that "
+                              f"come back conjugated are not exactly the flagged ones", case, {"mask": mi, "dask": dask_})
+            else:
+                res.hits["two-dimensional sideband mask"] += 1
+
+
 def names_case(case, res, tmp):
+    mask2d_check(case, res)
     """The multi-file sequence under names whose alphabetical order is not their time order (scan.8 .. scan.11): the reader
     must use the files in the order given."""
     d = os.path.join(tmp, "names")
@@ -804,7 +834,7 @@ def main(argv=None):
     return report.run_check(
         PID, gen_cases=gen_cases, check_case=check_case, describe=describe,
         required_hits=["out-of-range time rejected", "out-of-range read rejected", "adjacent reads join", "known payload verified",
-                       "same read repeated in a history", "numpy integer offsets", "time given on another scale", "dask read split into several time chunks", "mask argument modified by the caller afterwards", "stream running through a leap second", "reader on the documented hook signature, chunks=",
+                       "same read repeated in a history", "numpy integer offsets", "time given on another scale", "dask read split into several time chunks", "mask argument modified by the caller afterwards", "stream running through a leap second", "two-dimensional sideband mask", "reader on the documented hook signature, chunks=",
                        "file names whose sorted order is not their time order", "schedules explored", "schedules with a preemption",
                        "two readers in one graph", "free-running pass"],
         assumptions=["thread interleavings are explored at Python-line granularity inside pulsarbat/readers/*.py and utils.py; code in "
